@@ -15,7 +15,7 @@ let run (path : string) =
   let z = z_of_int in
   L.iter (fun line ->
       match tokens line with
-      | "case" :: id :: "c14" :: handler :: app :: breaker :: esm :: mask :: np :: cls :: kind :: changed :: base_cls :: same :: [] ->
+      | "case" :: id :: "c14" :: handler :: app :: breaker :: esm :: mask :: np :: cls :: kind :: changed :: base_cls :: same :: reads :: needed :: tag :: [] ->
         incr cases; incr steps;
         let h = coq_of_string handler in
         let breaker = bool_of_tok breaker and esm = int_of_string esm and mask = int_of_string mask in
@@ -23,8 +23,11 @@ let run (path : string) =
         let ok = (cls = "ok") and changed = bool_of_tok changed and same = bool_of_tok same in
         let base_ok = (base_cls = "ok") in
         ignore app;
-        bump (Printf.sprintf "c14:b%d:e%d:%s:%s:%s" (if breaker then 1 else 0) esm (if mask = 0 then "p-all" else if mask = full then "p-none" else "p-some") cls kind);
-        Hashtbl.replace distinct (Digest.string (Printf.sprintf "%s %b %d %d" handler breaker esm mask)) ();
+        let reads = int_of_string reads and needed = int_of_string needed in
+        let boundary = (tag <> "default") in
+        bump (Printf.sprintf "c14:%s:b%d:e%d:%s:%s:%s" (if boundary then "boundary-amount" else "default-amount") (if breaker then 1 else 0) esm
+                (if mask = 0 then "p-all" else if mask = full then "p-none" else if mask land reads <> 0 then "p-some-read" else "p-some-unread") cls kind);
+        Hashtbl.replace distinct (Digest.string (Printf.sprintf "%s %b %d %d %s" handler breaker esm mask tag)) ();
         if base_ok && (breaker || esm > 0 || mask <> 0) then incr nontrivial;
         if cls = "panic" then bump ("c14:panic:" ^ handler);
         if not (handler_known h) then
@@ -52,11 +55,11 @@ let run (path : string) =
         (* property predicates on the implementation's observation *)
         if not (holds_C14 h breaker (z esm) ok changed) then
           predfail ~case:id ~step:1 ~pred:"holds_C14" ~kf:"none"
-            ~detail:(Printf.sprintf "%s_breaker=%b_esm=%d_mask=%d_cls=%s_changed=%b" handler breaker esm mask cls changed);
+            ~detail:(Printf.sprintf "%s_%s_breaker=%b_esm=%d_mask=%d_cls=%s_changed=%b" handler tag breaker esm mask cls changed);
         if (not breaker) && esm = 0 then
-          if not (holds_C14_price (mask <> 0) ok base_ok same changed) then
+          if not (holds_C14_price (mask <> 0) (needed <> 0) ok base_ok same changed) then
             predfail ~case:id ~step:1 ~pred:"holds_C14_price" ~kf:"none"
-              ~detail:(Printf.sprintf "%s_mask=%d_cls=%s_outcome_differs_from_all_prices_active" handler mask cls)
+              ~detail:(Printf.sprintf "%s_%s_inactive-mask=%d_prices-read-when-active=%d_inactive-and-needed=%d_cls=%s_all-active-cls=%s_same-outcome=%b" handler tag mask reads needed cls base_cls same)
       | "case" :: id :: "sweep" :: name :: breaker :: div :: cls :: started :: [] ->
         incr cases; incr steps;
         let g = coq_of_string name in
